@@ -212,6 +212,28 @@ fn engine_frame(bt: &str) -> String {
     String::new()
 }
 
+/// Nearest preceding `fn` in the source text of the current tree: a key that survives line shifts.
+pub fn enclosing_fn(file: &str, line: u32) -> Option<String> {
+    let text = std::fs::read_to_string(file).ok()?;
+    let lines: Vec<&str> = text.lines().collect();
+    let mut i = (line as usize).min(lines.len());
+    while i > 0 {
+        i -= 1;
+        let l = lines[i].trim_start();
+        let l = l.strip_prefix("pub(crate) ").or_else(|| l.strip_prefix("pub(super) ")).or_else(|| l.strip_prefix("pub ")).unwrap_or(l);
+        let l = l.strip_prefix("const ").unwrap_or(l);
+        let l = l.strip_prefix("unsafe ").unwrap_or(l);
+        if let Some(rest) = l.strip_prefix("fn ") {
+            let name: String = rest.chars().take_while(|c| c.is_alphanumeric() || *c == '_').collect();
+            if !name.is_empty() {
+                let rel = file.strip_prefix("/repo/src/").unwrap_or(file);
+                return Some(format!("{rel}::{name}"));
+            }
+        }
+    }
+    None
+}
+
 pub fn install_panic_hook() {
     *MAIN_THREAD.lock().unwrap() = Some(std::thread::current().id());
     std::panic::set_hook(Box::new(|info| {
@@ -237,9 +259,22 @@ pub fn install_panic_hook() {
             // the budget must not make the capture itself fail
             let saved_live = BUDGET_LIVE.swap(usize::MAX, Ordering::Relaxed);
             let saved_one = BUDGET_ONE.swap(usize::MAX, Ordering::Relaxed);
-            let bt = std::backtrace::Backtrace::force_capture().to_string();
-            rec.function = engine_frame(&bt);
-            if rec.function.is_empty() && rec.location.contains("/repo/src/") {
+            rec.function = String::new();
+            if let Some(l) = info.location() {
+                if l.file().starts_with("/repo/src/") {
+                    rec.function = enclosing_fn(l.file(), l.line()).unwrap_or_default();
+                }
+            }
+            if rec.function.is_empty() {
+                let bt = std::backtrace::Backtrace::force_capture().to_string();
+                rec.function = engine_frame(&bt);
+                // normalise "crate::module::<impl ..>::name" to the last path segments
+                if let Some(p) = rec.function.rfind("::") {
+                    let tail = &rec.function[p + 2..];
+                    rec.function = format!("(via std) {tail}");
+                }
+            }
+            if rec.function.is_empty() {
                 rec.function = rec.location.clone();
             }
             BUDGET_LIVE.store(saved_live, Ordering::Relaxed);
